@@ -173,6 +173,15 @@ Theorem C11_names_only_through_header_cipher : forall (Eb hdr_lzma : bytes -> by
 Proof. exact names_only_through_header_cipher. Qed.
 Print Assumptions C11_names_only_through_header_cipher.
 
+(* non-vacuity of the names theorem: two different names of equal length give different raw headers of equal
+   length, hence the same bytes around ANY header ciphertext *)
+Example C11_names_example :
+  mt_names ex_meta <> mt_names ex_meta' /\
+  (exists h h' r1 r2, mk_header ex_meta 32 7 = Ok h /\ mk_header ex_meta' 32 7 = Ok h' /\ h <> h' /\
+     write_header true 0 h = Ok r1 /\ write_header true 0 h' = Ok r2 /\ r1 <> r2 /\ blen r1 = blen r2 /\
+     forall hcs hp, assemble 2 h (ex_plain 32) hcs hp = assemble 2 h' (ex_plain 32) hcs hp).
+Proof. exact names_example. Qed.
+
 (* non-vacuity: a complete run of the step model ([Copy, AES], block size 16, header encrypted) *)
 Example C11_write_archive_example :
   exists a, write_archive (toyK ex_K) unit copy_step copy_flush (fun x => x) 2 [false; false]
